@@ -227,6 +227,23 @@ func htmlBoundaryInputs() []string {
 				add(t)
 			}
 		}
+		// characters the Unicode-aware library helpers class with ASCII blanks, digits and letters, in
+		// front of, behind and in place of the blanks of short vectors (all five start contexts are judged)
+		uvec := []string{"onclick=alert(1)", "style=bold", "href=javascript:void(0)", "<script>", "<a href=javascript:x>", "<img src=x onerror=1>", "x' onclick=y ", "x\" onload=1 ", "x` style=1 ", "<!doctype html>", "<a b=c onclick=1>", "&#106;avascript:x", "<a href=&#106;avascript:x>", "plain text", "x"}
+		for _, lists := range [][]string{gen.UnicodeSpaces, gen.UnicodeDigits, gen.UnicodeLetters} {
+			for _, u := range lists {
+				for _, v := range uvec {
+					add(u + v)
+					add(v + u)
+					add(u + " " + v)
+					add(" " + u + v)
+					add(strings.ReplaceAll(v, " ", u))
+					add(strings.ReplaceAll(v, "=", u+"="))
+					add(strings.ReplaceAll(v, "=", "="+u))
+					add(strings.ReplaceAll(v, "1", u))
+				}
+			}
+		}
 	})
 	return htmlBoundaryVal
 }
@@ -350,6 +367,8 @@ func TestC07(t *testing.T) {
 	p = c.rec.NewPart("boundary_inputs", "NUL runs of 1..100 bytes inside names; 4..6-byte comment tokens with IE/XML/IMPORT/ENTITY markers and case-folding code points; structural bytes exactly 255/256/257/512 times; total lengths 255..257 and 65535..65537; CDATA opener case variants; alias runes after names", false, true, "")
 	c.ParRange(p, int64(len(hb)), func(w *Worker, i int64) { judge(w, hb[i]) })
 
+	p = c.rec.NewPart("source_dictionary", fmt.Sprintf("%d construct openers x every sequence of 1..4 symbols over {W} + %q (5 symbols over {W} + the first five) that contains W, for each word W (as written, upper, lower) that occurs as a literal in the XSS source files and is not a list entry", len(htmlDictOpeners), htmlDictAlpha), false, true, "")
+	c.htmlDictInputs(p, judge)
 	p = c.rec.NewPart("pass_leak_atoms_exhaustive", "every concatenation of 1..4 (thorough 5) pass-leak atoms (see C13)", false, true, "")
 	c.EnumSeq(p, passLeakAtoms, "", 1, pick(4, 5), judge)
 
